@@ -660,6 +660,145 @@ func refCase(r *prng.R, id, kind string) proto.Case {
 	return proto.Case{ID: id, Ops: ops}
 }
 
+// ---------------------------------------------------------------- family D2: reference graphs
+
+// refGraphCase: n flows f0..f(n-1); adj[i] = the flows f_i references (`f_iA -n_j-> flow f_j start`), written in
+// direction dir; flows are declared in the order `order`.  On the response side every flow that fails fails with
+// "circular flow reference" (a reference cycle is reachable from it), so the class is printed (`load class`); on the
+// request side `connectProcessorToStream` redirects foreign exits to the current root, other classes mix in.
+func refGraphCase(id string, n int, adj [][]int, dir string, order []int) proto.Case {
+	ops := append([]string{}, vocabLines...)
+	other := "res"
+	if dir == "res" {
+		other = "req"
+	}
+	fname := func(i int) string { return fmt.Sprintf("f%d", i) }
+	for _, i := range order {
+		f, a := fname(i), fname(i)+"A"
+		ops = append(ops, "flow "+f, fmt.Sprintf("proc %s %s PD", f, a),
+			fmt.Sprintf("conn %s %s %s %s", f, dir, sStart, pe(a, "")))
+		for _, j := range adj[i] {
+			ops = append(ops, fmt.Sprintf("conn %s %s %s F:%s:start", f, dir, pe(a, fmt.Sprintf("n%d", j)), fname(j)))
+		}
+		if len(adj[i]) == 0 {
+			ops = append(ops, fmt.Sprintf("conn %s %s %s %s", f, dir, pe(a, "n0"), sEnd))
+		}
+		ops = append(ops, fmt.Sprintf("conn %s %s %s %s", f, other, sStart, sEnd))
+	}
+	if dir == "res" && uniformFailure(n, adj) {
+		ops = append(ops, "load class")
+	} else {
+		ops = append(ops, "load")
+	}
+	var parts []string
+	for i := 0; i < n; i++ {
+		for j := 0; j < n; j++ {
+			out := "n0"
+			if len(adj[j]) > 0 {
+				out = fmt.Sprintf("n%d", adj[j][0])
+			}
+			parts = append(parts, fmt.Sprintf("%s/%sA/%s=n:%s", fname(i), fname(j), dir, out))
+		}
+	}
+	ops = append(ops, "txn dir="+dir+" o="+strings.Join(parts, ","))
+	return proto.Case{ID: id, Ops: ops}
+}
+
+// uniformFailure: (functional graphs only) do all flows that fail to build fail for the same reason?  Following
+// the chain of references from a flow: a repeated flow = "circular flow reference"; a chain of >= 2 references that
+// ends in a reference-free flow = "foreign root node not found" (the nested incorporation consumed foreignRoot).
+// Go reports the first failing flow in map order, so the class is only printed when it cannot depend on that order.
+func uniformFailure(n int, adj [][]int) bool {
+	classes := map[string]bool{}
+	for i := 0; i < n; i++ {
+		if len(adj[i]) > 1 {
+			return false
+		}
+		seen := map[int]bool{i: true}
+		cur, depth := i, 0
+		for len(adj[cur]) == 1 {
+			if len(adj[adj[cur][0]]) > 1 {
+				return false
+			}
+			cur = adj[cur][0]
+			depth++
+			if seen[cur] {
+				classes["refcycle"] = true
+				depth = -1
+				break
+			}
+			seen[cur] = true
+		}
+		if depth >= 2 {
+			classes["foreignroot"] = true
+		}
+	}
+	return len(classes) <= 1
+}
+
+// functional reference graph number m over n flows: every flow references at most one flow (digit 0 = none):
+// self loops, 2-cycles, rings, rho shapes (a tail into a cycle), chains
+func functionalAdj(n, m int) [][]int {
+	adj := make([][]int, n)
+	for i := 0; i < n; i++ {
+		d := m % (n + 1)
+		m /= n + 1
+		if d > 0 {
+			adj[i] = []int{d - 1}
+		}
+	}
+	return adj
+}
+
+// general reference graph number m over n flows (bit i*n+j: f_i references f_j): diamonds, several cycles
+func generalAdj(n, m int) [][]int {
+	adj := make([][]int, n)
+	for i := 0; i < n; i++ {
+		for j := 0; j < n; j++ {
+			if m&(1<<(i*n+j)) != 0 {
+				adj[i] = append(adj[i], j)
+			}
+		}
+	}
+	return adj
+}
+
+func perms(n int) [][]int {
+	var out [][]int
+	var rec func(cur []int, used []bool)
+	rec = func(cur []int, used []bool) {
+		if len(cur) == n {
+			out = append(out, append([]int{}, cur...))
+			return
+		}
+		for i := 0; i < n; i++ {
+			if !used[i] {
+				used[i] = true
+				rec(append(cur, i), used)
+				used[i] = false
+			}
+		}
+	}
+	rec(nil, make([]bool, n))
+	return out
+}
+
+// in quick, with budget 1, every second functional graph over 4 flows; all of them when the budget is raised
+func mulStep(mul int) int {
+	if mul > 1 {
+		return 1
+	}
+	return 2
+}
+
+func pow(b, e int) int {
+	r := 1
+	for ; e > 0; e-- {
+		r *= b
+	}
+	return r
+}
+
 // ---------------------------------------------------------------- family E: quota files
 
 type qfields map[string]string
@@ -1003,6 +1142,47 @@ func gen(r *prng.R, f proto.Flags, emit func(proto.Case)) {
 	for k := 0; k < nD; k++ {
 		for _, kind := range refKinds {
 			emit(refCase(r.Fork(), next("d-"+kind+"-"), kind))
+		}
+	}
+	// reference graphs: all over 2 flows, all functional ones over 3 flows in every declaration order, functional
+	// ones over 4 flows (rho shapes with tail 1-2 into cycles 1-3) in a rotating order; thorough: all 512 graphs over
+	// 3 flows and all functional ones over 4 flows in EVERY order, plus random general graphs over 4 flows
+	dirs := []string{"res", "req"}
+	k := 0
+	for m := 0; m < 16; m++ {
+		for _, o := range perms(2) {
+			k++
+			emit(refGraphCase(next("r2-"), 2, generalAdj(2, m), dirs[k%2], o))
+		}
+	}
+	p3, p4 := perms(3), perms(4)
+	for m := 0; m < pow(4, 3); m++ {
+		for _, o := range p3 {
+			k++
+			emit(refGraphCase(next("r3f-"), 3, functionalAdj(3, m), dirs[k%3%2], o))
+		}
+	}
+	for m := 0; m < pow(5, 4); m++ {
+		if thorough {
+			for _, o := range p4 {
+				k++
+				emit(refGraphCase(next("r4f-"), 4, functionalAdj(4, m), dirs[k%3%2], o))
+			}
+		} else if m%mulStep(mul) == 0 {
+			k++
+			emit(refGraphCase(next("r4f-"), 4, functionalAdj(4, m), dirs[k%3%2], p4[m%len(p4)]))
+		}
+	}
+	if thorough {
+		for m := 0; m < 512; m++ {
+			for _, o := range p3 {
+				k++
+				emit(refGraphCase(next("r3g-"), 3, generalAdj(3, m), dirs[k%2], o))
+			}
+		}
+		for i := 0; i < 3000*mul; i++ {
+			rr := r.Fork()
+			emit(refGraphCase(next("r4g-"), 4, generalAdj(4, rr.Intn(1<<16)&rr.Intn(1<<16)), dirs[i%2], p4[rr.Intn(len(p4))]))
 		}
 	}
 	for i := 0; i < nE; i++ {
